@@ -1,4 +1,4 @@
-"""Citation-kind alphabet: 29 letters, each a snippet from which the real extractor builds the object."""
+"""Citation-kind alphabet: 31 letters, each a snippet from which the real extractor builds the object."""
 
 ALPHA = [
     # name, snippet, class name, index among citations of that class in the snippet
@@ -25,12 +25,14 @@ ALPHA = [
     ("SU_B", "Delta, supra, at 201.", "SupraCitation", 0),  # unique name -> B
     ("SU_amb", "Alpha, supra, at 5.", "SupraCitation", 0),  # A and C share Alpha
     ("SU_unk", "\u0417\u0435\u0442\u0430, supra.", "SupraCitation", 0),  # a name (in Cyrillic) that no cited case bears
+    ("SU_vol", "Alpha, 10 supra, at 5.", "SupraCitation", 0),  # supra carrying a volume (A's); Alpha is shared by A and C
     ("REF_B", "Gamma v. Delta, 10 U.S. 200 (2001). In Gamma at 201 we see.", "ReferenceCitation", 0),
     ("REF_O", "O'Brien v. D'Arcy, 40 F.3d 400 (1995). In O'Brien at 405 we see.", "ReferenceCitation", 0),
     ("SU_O", "D'Arcy, supra, at 402.", "SupraCitation", 0),
     ("ID", "Id.", "IdCitation", 0),
     ("ID_ok", "Id. at 101.", "IdCitation", 0),
     ("ID_far", "Id. at 999.", "IdCitation", 0),
+    ("ID_edge", "Id. at 251.", "IdCitation", 0),  # one page beyond the window of a case starting at page 100
     ("ID_bad", "Id. at ¶ 7.", "IdCitation", 0),
     ("UNK", "see §99 of it.", "UnknownCitation", 0),
 ]
